@@ -133,10 +133,36 @@ func c19GoModule(f []string) *py.ModuleImpl {
 
 var c19Candidates = []string{"__main__", "bad", "g0", "g1", "m0", "m1", "m2", "m3", "m4", "m5", "nosuch"}
 
+// c19NewRun installs the logging builtins ev / ex into the context's own builtins module
+func c19NewRun(ctx py.Context, root string) *c19Run {
+	r := &c19Run{ctx: ctx, root: root, seen: map[uintptr]int{}}
+	bi := ctx.Store().Builtins.Globals
+	bi["ev"] = py.MustNewMethod("ev", func(self py.Object, args py.Tuple) (py.Object, error) {
+		tag, g := args[0].(py.Int), args[1].(py.StringDict)
+		ref := r.modRef(g)
+		r.parts = append(r.parts, fmt.Sprintf("L%d@%s%s", int64(tag), ref, r.entries(g, r.deep)))
+		return py.None, nil
+	}, 0, "")
+	bi["ex"] = py.MustNewMethod("ex", func(self py.Object, args py.Tuple) (py.Object, error) {
+		g := args[0].(py.StringDict)
+		name, _ := g["__name__"].(py.String)
+		cls := "?"
+		if e, ok := args[1].(*py.Exception); ok {
+			cls = e.Type().Name
+		}
+		r.parts = append(r.parts, fmt.Sprintf("C@%s:%s", string(name), cls))
+		return py.None, nil
+	}, 0, "")
+	return r
+}
+
 func c19Case(work string, line string) (string, string) {
 	sp := strings.IndexByte(line, ' ')
 	if sp < 0 {
 		panic("bad case line")
+	}
+	if line[0] == 'H' || line[0] == 'M' {
+		return c19Dyn(work, line[sp+1:])
 	}
 	// the directory tree root/{d0,d1,s} is private to this process (created once, empty between
 	// cases): every file a case writes is removed again when the case ends
@@ -177,24 +203,7 @@ func c19Case(work string, line string) (string, string) {
 	}
 	ctx := py.NewContext(py.ContextOpts{SysArgs: []string{"c19"}, SysPaths: []string{filepath.Join(root, "d0"), filepath.Join(root, "d1")}})
 	defer ctx.Close()
-	r := &c19Run{ctx: ctx, root: root, seen: map[uintptr]int{}}
-	bi := ctx.Store().Builtins.Globals
-	bi["ev"] = py.MustNewMethod("ev", func(self py.Object, args py.Tuple) (py.Object, error) {
-		tag, g := args[0].(py.Int), args[1].(py.StringDict)
-		ref := r.modRef(g)
-		r.parts = append(r.parts, fmt.Sprintf("L%d@%s%s", int64(tag), ref, r.entries(g, r.deep)))
-		return py.None, nil
-	}, 0, "")
-	bi["ex"] = py.MustNewMethod("ex", func(self py.Object, args py.Tuple) (py.Object, error) {
-		g := args[0].(py.StringDict)
-		name, _ := g["__name__"].(py.String)
-		cls := "?"
-		if e, ok := args[1].(*py.Exception); ok {
-			cls = e.Type().Name
-		}
-		r.parts = append(r.parts, fmt.Sprintf("C@%s:%s", string(name), cls))
-		return py.None, nil
-	}, 0, "")
+	r := c19NewRun(ctx, root)
 	results := []string{}
 	for i, src := range scripts {
 		p := filepath.Join(root, "s", fmt.Sprintf("s%d.py", i))
@@ -233,11 +242,183 @@ func init() {
 		if err != nil {
 			panic(err)
 		}
-		for _, d := range []string{"d0", "d1", "s"} {
+		for _, d := range []string{"d0", "d1", "s", "cw"} {
 			if err := os.Mkdir(filepath.Join(work, d), 0o755); err != nil {
 				panic(err)
 			}
 		}
+		// the working directory of the process is <root>/cw: what a relative sys.path entry falls back to
+		if err := os.Chdir(filepath.Join(work, "cw")); err != nil {
+			panic(err)
+		}
 		return func(line string) (string, string) { return c19Case(work, line) }
 	}
+}
+
+// ---- histories (families H, M, HR): steps executed in order on one or two live contexts ----
+
+func c19Ent(root, e string) string {
+	switch e {
+	case ".":
+		return "'.'"
+	case "#":
+		return "7"
+	}
+	return strconv.Quote(filepath.Join(root, e))
+}
+
+func c19EntList(root, l string) string {
+	if l == "" {
+		return "[]"
+	}
+	parts := []string{}
+	for _, e := range strings.Split(l, ",") {
+		parts = append(parts, c19Ent(root, e))
+	}
+	return "[" + strings.Join(parts, ", ") + "]"
+}
+
+// c19Exec runs a statement in the context without creating a module (scratch globals)
+func c19Exec(ctx py.Context, src string) error {
+	code, err := py.Compile(src, "<pathop>", py.ExecMode, 0, true)
+	if err != nil {
+		return err
+	}
+	g := py.StringDict{}
+	_, err = ctx.RunCode(code, g, g, nil)
+	return err
+}
+
+func (r *c19Run) renderPath() string {
+	out := []string{}
+	l, ok := r.ctx.Store().MustGetModule("sys").Globals["path"].(*py.List)
+	if !ok {
+		return "P?"
+	}
+	for _, it := range l.Items {
+		s, ok := it.(py.String)
+		switch {
+		case !ok:
+			out = append(out, "#")
+		case string(s) == ".":
+			out = append(out, ".")
+		case strings.HasPrefix(string(s), r.root+"/"):
+			out = append(out, string(s)[len(r.root)+1:])
+		default:
+			out = append(out, "?"+string(s))
+		}
+	}
+	return "P[" + strings.Join(out, ",") + "]"
+}
+
+func c19Dyn(root string, body string) (string, string) {
+	written := map[string]bool{}
+	defer func() {
+		for p := range written {
+			os.Remove(p)
+		}
+	}()
+	write := func(rel string, data string) {
+		p := filepath.Join(root, rel)
+		if err := os.WriteFile(p, []byte(data), 0o644); err != nil {
+			panic(err)
+		}
+		written[p] = true
+	}
+	secs := strings.Split(body, "|")
+	goSeen := map[string]bool{}
+	initial := []string{}
+	k := 0
+	for ; k < len(secs); k++ {
+		f := strings.Split(secs[k], ";")
+		done := false
+		switch f[0] {
+		case "G":
+			py.RegisterModule(c19GoModule(f))
+			goSeen[f[1]] = true
+		case "I":
+			initial = append(initial, f[2])
+		case "F":
+			write(f[1], c19Unescape(f[2]))
+		case "X":
+			write(f[1], "def (:\n")
+		default:
+			done = true
+		}
+		if done {
+			break
+		}
+	}
+	if !goSeen["g0"] || !goSeen["g1"] {
+		panic("every case must define the Go modules g0 and g1 (registrations are process-wide)")
+	}
+	runs := []*c19Run{}
+	results := [][]string{}
+	for _, p := range initial {
+		ctx := py.NewContext(py.ContextOpts{SysArgs: []string{"c19"}, SysPaths: []string{}})
+		defer ctx.Close()
+		if err := c19Exec(ctx, "import sys\nsys.path = "+c19EntList(root, p)+"\n"); err != nil {
+			panic(err)
+		}
+		runs = append(runs, c19NewRun(ctx, root))
+		results = append(results, []string{})
+	}
+	note := func(c int, err error) {
+		if err != nil {
+			results[c] = append(results[c], errClass(err))
+		} else {
+			results[c] = append(results[c], "ok")
+		}
+	}
+	for i := 0; k+i < len(secs); i++ {
+		f := strings.Split(secs[k+i], ";")
+		switch f[0] {
+		case "P":
+			c, _ := strconv.Atoi(f[1])
+			src := ""
+			switch f[2] {
+			case "append":
+				src = "sys.path.append(" + c19Ent(root, f[3]) + ")"
+			case "insert":
+				src = "sys.path.insert(" + f[3] + ", " + c19Ent(root, f[4]) + ")"
+			case "remove":
+				src = "sys.path.remove(" + c19Ent(root, f[3]) + ")"
+			case "clear":
+				src = "sys.path.clear()"
+			case "rebind":
+				src = "sys.path = " + c19EntList(root, f[3])
+			default:
+				panic("bad path op " + secs[k+i])
+			}
+			note(c, c19Exec(runs[c].ctx, "import sys\n"+src+"\n"))
+		case "W":
+			write(f[1], c19Unescape(f[2]))
+		case "WX":
+			write(f[1], "def (:\n")
+		case "D":
+			os.Remove(filepath.Join(root, f[1]))
+		case "R":
+			c, _ := strconv.Atoi(f[1])
+			rel := filepath.Join(f[2], fmt.Sprintf("s%d.py", i))
+			p := filepath.Join(root, rel)
+			write(rel, c19Unescape(f[3]))
+			_, err := py.RunFile(runs[c].ctx, p, py.CompileOpts{}, nil)
+			// the script file is not a module of the scenario
+			os.Remove(p)
+			note(c, err)
+		default:
+			panic("bad step " + secs[k+i])
+		}
+	}
+	outs := []string{}
+	for c, r := range runs {
+		storeVals := py.StringDict{}
+		for _, n := range c19Candidates {
+			if m, err := r.ctx.GetModule(n); err == nil {
+				storeVals[n] = m
+			}
+		}
+		outs = append(outs, strings.Join(r.parts, ";")+";R:;S"+r.entries(storeVals, r.deep)+";O:"+strings.Join(results[c], ",")+";"+r.renderPath())
+	}
+	return strings.Join(outs, " || "), ""
 }
